@@ -133,8 +133,14 @@ def std_view(st, quant):
             if isinstance(v, dict):
                 out[tab][k] = ("dict", sorted((kk, canon_cell(vv, quant)) for kk, vv in v.items()))
             else:
-                out[tab][k] = (type(v).__name__, canon_cell(getattr(v, "reg_par", None), quant),
-                               getattr(v, "name", None), getattr(v, "component", None))
+                attrs = sorted((a, canon_cell(x, quant)) for a, x in v.__dict__.items() if not callable(x))
+                curve = None
+                if hasattr(v, "get_pressure"):
+                    try:
+                        curve = [canon_cell(float(v.get_pressure(q / 3600.0)), quant) for q in (0.0, 5.0, 20.0, 45.0, 70.0, 90.0)]
+                    except Exception as e:  # noqa: BLE001
+                        curve = type(e).__name__
+                out[tab][k] = (type(v).__name__, attrs, curve)
     return out
 
 
@@ -266,7 +272,22 @@ def roundtrip(net, path, scratch, tag):
         return pp.from_json(buf)
     if path == "json_encrypted":
         s = pp.to_json(net, encryption_key="k3y")
+        if s.lstrip()[:1] in "{[":
+            raise AssertionError("to_json(encryption_key=...) returned plain JSON")
         return pp.from_json_string(s, encryption_key="k3y")
+    if path == "json_encrypted_file":
+        fn = os.path.join(scratch, "n_%s.enc" % tag)
+        pp.to_json(net, fn, encryption_key="k3y")
+        if open(fn).read(1) in "{[":
+            raise AssertionError("to_json(file, encryption_key=...) wrote plain JSON")
+        return pp.from_json(fn, encryption_key="k3y")
+    if path == "json_encrypted_filelike":
+        buf = io.StringIO()
+        pp.to_json(net, buf, encryption_key="k3y")
+        if buf.getvalue()[:1] in "{[":
+            raise AssertionError("to_json(file object, encryption_key=...) wrote plain JSON")
+        buf.seek(0)
+        return pp.from_json(buf, encryption_key="k3y")
     if path == "pickle":
         fn = os.path.join(scratch, "n_%s.p" % tag)
         pp.to_pickle(net, fn)
@@ -322,10 +343,10 @@ def run_diff(ctx):
     from pandapipes.multinet.create_multinet import MultiNet
     paths = ["json_string", "json_file", "json_filelike", "pickle"]
     if have_crypto():
-        paths.append("json_encrypted")
+        paths += ["json_encrypted", "json_encrypted_file", "json_encrypted_filelike"]
     else:
         ctx.note("module `cryptography` not importable: encrypted JSON path skipped")
-        ctx.extra["skipped_paths"] = ["json_encrypted"]
+        ctx.extra["skipped_paths"] = ["json_encrypted", "json_encrypted_file", "json_encrypted_filelike"]
     n_run = 0
     for name, net, info in test_nets(ctx):
         is_multi = isinstance(net, MultiNet)
@@ -344,14 +365,14 @@ def run_diff(ctx):
                     ctx.count("multinet_pickle_unsupported")
                     continue
                 sig = {"clause": "roundtrip_raises", "path": "json" if path.startswith("json") else path,
-                       "exception": type(e).__name__}
+                       "variant": path, "exception": type(e).__name__}
                 sig.update({k: v for k, v in info.items() if k in ("property_class", "builder")})
                 ctx.violation(sig, "saving / loading net %s through %s raises %s: %s" % (name, path, type(e).__name__, str(e)[:200]), replay)
                 continue
             if not is_multi and drive.snapshot_tables(net) != before:
                 ctx.violation({"clause": "save_mutates_net", "path": path}, "saving net %s through %s changed the net" % (name, path), replay)
             for sig, what in compare_nets(net, loaded, quant):
-                sig = dict(sig, path="json" if path.startswith("json") else path)
+                sig = dict(sig, path="json" if path.startswith("json") else path, variant=path)
                 ctx.violation(sig, "net %s via %s: %s" % (name, path, what), replay)
             if path == "json_string":
                 s1 = pp.to_json(net)
@@ -367,21 +388,23 @@ def run_diff(ctx):
                                   "at byte %d: %r vs %r" % (name, pos, s1[max(0, pos - 40):pos + 40], s2[max(0, pos - 40):pos + 40]), replay)
             # pipeflow on the loaded net
             if not is_multi and len(net.get("ext_grid", [])) + len(net.get("circ_pump_pressure", [])) + \
-                    len(net.get("circ_pump_mass", [])) > 0 and net.fluid is not None and path in ("json_string", "pickle"):
+                    len(net.get("circ_pump_mass", [])) > 0 and net.fluid is not None:
                 a, b = copy.deepcopy(net), loaded
                 mode = "sequential" if (len(a.get("heat_consumer", [])) or len(a.get("circ_pump_pressure", [])) or
                                         len(a.get("circ_pump_mass", []))) else "hydraulics"
                 ra, rb = drive.run(a, mode=mode, use_numba=False), drive.run(b, mode=mode, use_numba=False)
                 n_run += 1
                 if ra[0] != rb[0]:
-                    ctx.violation(dict({"clause": "pipeflow_after_load", "what": "outcome", "path": path},
+                    ctx.violation(dict({"clause": "pipeflow_after_load", "what": "outcome",
+                                        "path": "json" if path.startswith("json") else path, "variant": path},
                                        **{k: v for k, v in info.items() if k == "property_class"}),
                                   "net %s: pipeflow %s on the original, %s on the net loaded via %s" % (name, ra, rb, path), replay)
                 elif ra[0] == "ok":
                     d = drive.same_results(drive.snapshot_results(a), drive.snapshot_results(b),
                                            rtol=1e-9 if quant else 0.0, atol=1e-11 if quant else 0.0)
                     if d:
-                        ctx.violation({"clause": "pipeflow_after_load", "what": "results", "path": path},
+                        ctx.violation({"clause": "pipeflow_after_load", "what": "results",
+                                       "path": "json" if path.startswith("json") else path, "variant": path},
                                       "net %s: results of the net loaded via %s differ: %s" % (name, path, d[:3]), replay)
     ctx.count("pipeflow_comparisons", n_run)
 
